@@ -569,3 +569,74 @@ Arguments RVNames {T} l.
 Arguments RVNat {T} n.
 Arguments RVDict {T} d.
 Arguments RVPriv {T} key w.
+
+(** ** reset-before-read discipline (syntactic)
+
+    The interpreter above reads [t._evaluate(p)] and [t._numeric_partial(v, p)] as the pure model
+    functions.  That reading is justified (Stateful.v, C09: an evaluation that starts from a reset
+    store is the pure one) only when the memo fields below [t] have just been cleared.  [disciplined]
+    checks exactly that, on the translated bodies: on every path, every call that READS the cache
+    (_evaluate, _numeric_partial) has a receiver that is a plain name / field / self on which
+    [_reset_evaluation_cache()] was called earlier in the same straight-line code, with no assignment
+    to that name or field in between.  Calls that reset on their own (at, _numeric_partials) need
+    nothing.  TieRoute.reset_discipline proves it of all current route bodies by computation. *)
+Definition recv_key (t : rx) : option string :=
+  match t with
+  | RSelf => Some "self"
+  | RName x => Some x
+  | RField f => Some (String.append "self." f)
+  | _ => None
+  end.
+
+Definition reads_cache (m : string) : bool :=
+  String.eqb m "_evaluate" || String.eqb m "_numeric_partial".
+
+Fixpoint key_in (k : string) (l : list string) : bool :=
+  match l with [] => false | x :: r => String.eqb k x || key_in k r end.
+
+Fixpoint reads_ok (clean : list string) (t : rx) {struct t} : bool :=
+  let args_ok :=
+    fix args_ok (l : list (string * rx)) : bool :=
+      match l with [] => true | (_, a) :: r => reads_ok clean a && args_ok r end in
+  match t with
+  | RSelf | RName _ | RNone | RZero | RStr _ | RField _ => true
+  | RIsNone a | RNot a | RIsPoint a | RIn _ a | RIndex a _ | RPrivDict _ a | RGetName a
+  | RSingleName a | RVarNames a | RLen a | RCmpInt a _ => reads_ok clean a
+  | RAnd a b | RNumberLine a b => reads_ok clean a && reads_ok clean b
+  | RGet a b c => reads_ok clean a && reads_ok clean b && reads_ok clean c
+  | RCall recv m args =>
+      reads_ok clean recv && args_ok args &&
+      (if reads_cache m then match recv_key recv with Some k => key_in k clean | None => false end else true)
+  | RNew _ args | RHelper _ args => args_ok args
+  | RMapValues d _ _ body => reads_ok clean d && reads_ok clean body
+  end.
+
+Fixpoint drop_key (k : string) (l : list string) : list string :=
+  match l with [] => [] | x :: r => if String.eqb k x then drop_key k r else x :: drop_key k r end.
+
+Fixpoint disciplined_stmt (clean : list string) (s : rstmt) {struct s} : bool * list string :=
+  let block :=
+    fix block (clean : list string) (l : list rstmt) {struct l} : bool :=
+      match l with
+      | [] => true
+      | s :: rest => let (ok, clean') := disciplined_stmt clean s in ok && block clean' rest
+      end in
+  match s with
+  | RSReturn t => (reads_ok clean t, clean)
+  | RSIf c th el => (reads_ok clean c && block clean th && block clean el, [])   (* nothing is assumed clean after a branch *)
+  | RSAssign x t => (reads_ok clean t, drop_key x clean)
+  | RSSetField f t => (reads_ok clean t, drop_key (String.append "self." f) clean)
+  | RSExpr (RCall recv m []) =>
+      if String.eqb m "_reset_evaluation_cache"
+      then match recv_key recv with Some k => (true, k :: clean) | None => (true, clean) end
+      else (reads_ok clean (RCall recv m []), clean)
+  | RSExpr t => (reads_ok clean t, clean)
+  | RSUnpack1 x t => (reads_ok clean t, drop_key x clean)
+  | RSRaise | RSRaiseCoord => (true, clean)
+  end.
+
+Fixpoint disciplined (clean : list string) (l : list rstmt) : bool :=
+  match l with
+  | [] => true
+  | s :: rest => let (ok, clean') := disciplined_stmt clean s in ok && disciplined clean' rest
+  end.
